@@ -229,7 +229,7 @@ func vRenderURL(u map[string]interface{}, originOnly bool) string {
 	host := vHostText[vStr(u, "host")]
 	port := map[string]string{"none": "", "443": ":443", "8443": ":8443"}[vStr(u, "port")]
 	path := map[string]string{"plain": "/cb", "empty": "", "dotdot": "/a/../cb", "encdotdot": "/a/%2e%2e/cb", "mixdotdot": "/a/.%2E/cb", "double": "//cb"}[vStr(u, "path")]
-	query := map[string]string{"none": "", "query": "?x=1", "emptyq": "?"}[vStr(u, "query")]
+	query := map[string]string{"none": "", "query": "?x=1", "emptyq": "?", "semicolon": "?u=1;next=https://evil.example.net/", "badescape": "?next=%zz"}[vStr(u, "query")]
 	if originOnly {
 		path, query = "", ""
 	}
@@ -257,6 +257,7 @@ func runC13(t *testing.T, cases []map[string]interface{}, ev *vEvents) {
 		{ClientID: "patterns", ClientSecret: "s", AllowedRedirectURLRE: pats},
 		{ClientID: "both", ClientSecret: "s", AllowedRedirectDomains: []string{"example.com"}, AllowedRedirectURLRE: pats},
 		{ClientID: "neither", ClientSecret: "s"},
+		{ClientID: "loose", ClientSecret: "s", AllowedRedirectURLRE: []string{`^.*$`}},
 	}
 	cookie := w.mintCookie("alice", AuthTypePassword, 0)
 	for i, c := range cases {
